@@ -9,6 +9,7 @@ from .. import build, expr as E, gen
 from . import common as K
 
 ID = "C18"
+REACH_TARGETS = [('StateMachineState.search', 'formak.ui_state_machine:StateMachineState.search'), ('FitModelState._fit_model_impl', 'formak.ui_state_machine:FitModelState._fit_model_impl')]
 LEVEL = "exploration"
 RULE = ("sm units: one instance of each workflow state; for all 9 (state instance, target) pairs search() is "
         "compared with an independent BFS over the declared graph Start -> Symbolic_Model -> Fit_Model (length, "
